@@ -139,6 +139,20 @@ def check(ctx):
     _r6(ctx)
 
 
+def _flat_text(ctx, sk, f, cfg, fname):
+    """the statements of a function as one text, in order, with the calls of the file's own helpers replaced by their bodies
+    (set-up moved into a private member is still the set-up of this function); the plain text when the body does not parse"""
+    fn = _func(ctx, CV, cfg, fname)
+    if fn is None:
+        return sk.plain(f.body)
+    parts = []
+    for st, _ in cstmt.walk(fn.body):
+        for pt in st[1:]:
+            if isinstance(pt, list) and (not pt or isinstance(pt[0], str)):
+                parts.append(" ".join(pt))
+    return " ; ".join(parts) + " ;"
+
+
 def _r6(ctx):
     """The ladder of HandleError restores / keeps the state by writing the caller's array `ab` and then CVodeReInit(.., cv_y_).
     That reaches the integrator only because cv_y_ has no storage of its own and is pointed at `ab` before CVodeInit: the
@@ -150,7 +164,7 @@ def _r6(ctx):
         if not fs:
             ctx.missing("R6", f"cvode/{mth}:Solve", (CV, 0), "Naunet::Solve not found")
             continue
-        body = sk.plain(fs[0].body)
+        body = _flat_text(ctx, sk, fs[0], cfg, "Naunet::Solve")
         ps = cstmt.params_of(fs[0].header)
         ab = re.escape(ps[0]) if ps else "ab"
         alias = [m.start() for m in re.finditer(r"\bN_VSetArrayPointer\s*\(\s*" + ab + r"\s*,\s*cv_y_\s*\)|\bNV_DATA_S\s*\(\s*cv_y_\s*\)\s*=\s*" + ab + r"\s*;"
@@ -172,7 +186,7 @@ def _r6(ctx):
             f2 = sk.func(fname)
             if not f2:
                 continue
-            b2 = sk.plain(f2[0].body)
+            b2 = _flat_text(ctx, sk, f2[0], cfg, fname)
             mk = re.findall(r"cv_y_\s*=\s*(\w+)\s*\(", b2)
             key = f"cvode/{mth}:{fname.split('::')[1]}:cv_y_ has no storage of its own"
             if mk and set(mk) <= {"N_VNewEmpty_Serial", "N_VNewEmpty"}:
@@ -198,6 +212,14 @@ def _r1(ctx):
             if not probs:
                 ncalls = sum(1 for s, c in cstmt.walk(body) if s[0] == "expr" and cstmt.assigned_call(s[1]) and cstmt.assigned_call(s[1])[1].startswith("CVode"))
                 ctx.ok("R1", key, (CV, 0), f"every status of the {ncalls} CVode* calls is tested before it is overwritten or the function returns")
+            # a private helper of the driver that reports NAUNET_FAIL (set-up moved into a member): its caller must look at the result
+            for st, c in cstmt.walk(body):
+                if st[0] == "expr" and "=" in st[1] and st[1].index("=") and cstmt.DROPPED in st[1][st[1].index("=") - 1] \
+                        and cstmt.value(st[1][st[1].index("=") + 1:], CONSTS) == 1:
+                    callee = st[1][st[1].index("=") - 1].split(cstmt.DROPPED)[0]
+                    ctx.bad("R1", f"{key}:{callee}", (CV, 0), f"{callee}(..) reports NAUNET_FAIL and {fname.split('::')[-1]} calls it without looking at the result: a failed step is carried on with as if it had succeeded",
+                            expected=f"if ({callee}(..) == NAUNET_FAIL) return NAUNET_FAIL;", found=f"{callee}(..);")
+                    break
             for var, callee, how in probs:
                 ctx.bad("R1", f"{key}:{callee}", (CV, 0),
                         f"the status `{var}` returned by {callee}(..) is {how}: a failed integration is reported as success",
